@@ -1,6 +1,6 @@
 SPECIFICATION Spec
 CONSTANTS
-  Families = {"fo", "st", "va", "ch", "ne", "dy", "cd"}
+  Families = {"ne"}
   DynLen = 5
   CdLen = 3
   SizeFo = 3
